@@ -10,7 +10,7 @@ PROPS = {}
 
 # ---------------------------------------------------------------- C16
 PROPS["C16"] = {
-    "level_text": "One-step refinement of a bounded FIFO: from every RingBuffer state satisfying the representation invariant (all read positions, all fill levels, closed or not, arbitrary item values; capacities 1..8 quick, ..32 thorough) one real Push / Pull / Close is executed symbolically and the post-state, return values, lock release and wake-up are compared with the reference queue. Because each operation is a single mutex-protected critical section (checked on every path), the step result covers operation histories of any length; real goroutine schedules are not explored.",
+    "level_text": 'One-step refinement of a bounded FIFO: from every RingBuffer state satisfying the representation invariant (all read positions, all fill levels, closed or not, arbitrary item values; capacities 1..8 quick, ..32 thorough) one real Push / Pull / Close is executed symbolically and the post-state, return values, lock release and wake-up are compared with the reference queue. Because each operation is a single mutex-protected critical section (checked on every path), the step result covers operation histories of any length. Consumer loop (asyncprocessor.Processor.run, executed sequentially over the real ring, capacities 1,2,4 / 8): callbacks run once each in acceptance order up to the first that fails or closes the queue, nothing runs afterwards, the error is reported exactly once and before the consumer is marked finished (the channel Close waits on), refusal exactly at capacity, nothing is handed out after Close. Real goroutine schedules are not explored.',
     "level_note": "Trusted: sync.Mutex/sync.Cond contracts (modelled sequentially, lock state tracked), the engine's SSA semantics (validated by native replay of counterexamples and must-fail twins). Not covered: real scheduler interleavings, Close racing Start, Reset, asyncprocessor goroutine.",
     "runs": [
         R("ring-size%d" % s, "pkg/ringbuffer", "pkg/ringbuffer", ["ZzC16Push", "ZzC16Pull", "ZzC16Close", "ZzC16Wake"],
@@ -56,14 +56,14 @@ def codec_runs(prefix, suffix="", quick=None, thorough=None, extra_entries=None,
     return runs
 
 PROPS["C03"] = {
-    "level_text": "Round trip decode(encode(frame)) == frame on the real encoder+decoder pairs of H264, H265, AV1, VP8, VP9, fragmented (MPEG-4 video/LATM), KLV (plus LPCM, simple audio, MPEG-TS via C06 runs): frame contents fully symbolic, unit lengths symbolic 1..P (P 8-16), 1-3 units, payload limit case-split over its whole small range, K=1 (quick) / 2 (thorough) consecutive frames; 'more packets needed' before the last packet and exact equality at it.",
-    "level_note": 'Preconditions (valid frames) are written in the harnesses and listed in the evidence (e.g. no start code inside NALUs, VP9 header parsable). Outside: default MTU 1450 itself (only the small-limit regime is explored; thresholds are relative to the limit so every aggregation/fragmentation boundary is crossed), MPEG-4 audio generic, MPEG-1 audio/video, AC-3, M-JPEG (not yet carried by the engine), P/N/K beyond the registered values.',
+    "level_text": "Round trip decode(encode(frame)) == frame on the real encoder+decoder pairs of H264, H265, AV1, VP8, VP9, fragmented (MPEG-4 video/LATM), KLV, MPEG-1 video (1-2 slices), MPEG-4 audio (SizeLength/IndexLength/IndexDeltaLength (13,3,3), (6,2,2) and the unequal (6,0,2), (6,2,0)), MPEG-1 audio and AC-3 (frame lengths fixed by the real header parsers; fragmented, single and aggregated regimes), LPCM, simple audio, MPEG-TS: frame contents fully symbolic, unit lengths symbolic 1..P (P 8-16; audio frames 48-140 bytes), 1-3 units (6 for the AU-header layouts), payload limit case-split over its whole small range, initial sequence number symbolic (wrap inside a frame included), K=1 (quick) / 2 (thorough) consecutive frames; 'more packets needed' before the completing packet and exact equality at it.",
+    "level_note": 'Preconditions (valid frames) are written in the harnesses and listed in the evidence (e.g. no start code inside NALUs, VP9 header parsable, audio header accepted by the codec library with the declared length). Outside: the default MTU 1450 for the round trip (only the small-limit regime; thresholds are relative to the limit so every aggregation/fragmentation boundary is crossed; C06 covers sizes at the default limit), M-JPEG, P/N/K beyond the registered values.',
     "runs": codec_runs("ZzC03", quick={"*": {"K": 1}, "rtpav1": {"K": 1, "N": 3, "P": 8}},
                        thorough={"*": {"K": 2, "P": 7, "MHI": 7}, "rtpav1": {"K": 1, "N": 3, "P": 10}, "rtpvp9": {"K": 2, "P": 14, "MHI": 14}, "rtpklv": {"K": 2, "P": 22, "MHI": 12}}),
 }
 PROPS["C06"] = {
-    "level_text": 'For every encoder listed under C03 plus LPCM, simple audio, MPEG-TS: payload <= PayloadMaxSize (limit symbolic over its small range), sequence numbers +1 modulo 2^16 from a symbolic initial value across K calls (so wraps inside a fragmented frame are covered), SSRC/payload type/version, marker placement, inputs never written (engine write monitor + native copy compare).',
-    "level_note": 'Same bounds and exclusions as C03; smallest workable limits are per codec (H264 3, H265 4, AV1 3, VP8 2, VP9 12) and stated as MLO in the bounds.',
+    "level_text": 'For every encoder listed under C03: payload <= PayloadMaxSize (limit symbolic over its small range), sequence numbers +1 modulo 2^16 from a symbolic initial value across K calls (so wraps inside a fragmented frame are covered), SSRC/payload type/version, marker placement, inputs never written (engine write monitor + native copy compare). In addition, for H264, H265, AV1, VP8, VP9 and fragmented: the DEFAULT limit (PayloadMaxSize unset => 1450) with 1..3 units of 1..4500 bytes carried by length-only buffers (lengths symbolic and exact), so every single/aggregated/fragmented threshold around the real default is crossed.',
+    "level_note": 'Same bounds and exclusions as C03; smallest workable limits are per codec (H264 3, H265 4, AV1 3, VP8 2, VP9 12) and stated as MLO in the bounds. Outside: M-JPEG; default-limit instances for the audio / KLV / MPEG-1 video encoders (their packetisation depends on frame contents).',
     "runs": codec_runs("ZzC06", quick={"*": {"K": 1}}, thorough={"*": {"K": 2, "P": 7, "MHI": 7}, "rtpvp9": {"K": 2, "P": 14, "MHI": 14}}),
 }
 _M4A = [
@@ -112,8 +112,8 @@ PROPS["C06"]["runs"] += [
 PROPS["C06"]["runs"] += _M4A + _MISC + _AUD + [
     R("mpeg1video", "pkg/format/rtpmpeg1video", "pkg/format/rtpmpeg1video", ["ZzC06MPEG1Video"], quick_params=_M1V_Q, thorough_params=_M1V_T)]
 PROPS["C07"] = {
-    "level_text": "Inductive resynchronisation: from an ARBITRARY decoder pre-state (all internal fields symbolic within a small shape, constrained only by the accounting invariant) an intact frame A then an intact frame B are fed; B must come back intact exactly once at its last packet (H264: no later than the first packet of the following frame) with only 'more packets needed' before, and the invariant must be re-established. Any loss/duplication/reordering history leaves the decoder in some such state, so one verdict covers fault sequences of every length. H264, H265, AV1, VP8, VP9, fragmented, KLV.",
-    "level_note": 'Trusted: the representation invariant of each decoder (Appendix A of DESIGN.md); pre-state shapes are small (<=2 pending fragments of <=3 bytes, <=1 buffered unit). Outside: MPEG-4 audio, MPEG-1 audio/video, AC-3, M-JPEG; explicit drop/dup/swap enumeration (covered through the inductive state).',
+    "level_text": "Inductive resynchronisation: from an ARBITRARY decoder pre-state (all internal fields symbolic within a small shape, constrained only by the accounting invariant; for H264/H265/AV1 also with the number of buffered units at or just below the documented maximum, as left by lost marker packets) an intact frame A then an intact frame B are fed; B must come back intact exactly once at its completing packet (H264: no later than the first packet of the following frame) with only 'more packets needed' before, and the invariant must be re-established. Any loss/duplication/reordering history leaves the decoder in some such state, so one verdict covers fault sequences of every length. H264, H265, AV1, VP8, VP9, fragmented, KLV, MPEG-1 video, MPEG-1 audio, AC-3, MPEG-4 audio.",
+    "level_note": "Trusted: the representation invariant of each decoder (Appendix A of DESIGN.md); pre-state shapes are small (<=2 pending fragments of <=3 bytes, <=1 buffered unit or a near-maximum count of one-byte units). These harnesses name unexported fields: after a refactoring of a decoder's internals they are inconclusive (exit 2) and only the public-API checks of C03/C08 remain. Outside: M-JPEG; explicit drop/dup/swap enumeration (covered through the inductive state).",
     "runs": codec_runs("ZzC07", state=True, quick={"*": {"P": 5}, "rtpvp9": {"P": 14, "MHI": 13}, "rtpklv": {"P": 20, "MHI": 18}}, thorough={"*": {}}),
 }
 for _r in PROPS["C07"]["runs"]:
@@ -132,8 +132,8 @@ PROPS["C07"]["runs"] += [
       quick_params={"P": 5, "MHI": 8}, thorough_params={"P": 6, "MHI": 10}),
 ]
 PROPS["C08"] = {
-    "level_text": 'Hostile packets: K arbitrary packets (payload 0..P fully symbolic, any header) from Init through the real decoders: no panic, no loop beyond the unwinding bound, returned frames within the documented maximum, returned buffers never written by later calls (write monitor + native compare), accounting invariant after every call; plus one inductive step at the REAL size caps with length-only buffers (VP8, VP9, AV1, fragmented, KLV).',
-    "level_note": 'Outside: M-JPEG, MPEG-4 audio, MPEG-1 audio/video, AC-3 decoders (not yet carried); inductive cap step for H264/H265 (solver timeouts on length-only data, dropped rather than weakened); heap measured as reachable slice lengths.',
+    "level_text": 'Hostile packets: K arbitrary packets (payload 0..P fully symbolic, any header) from Init through the real decoders: no panic, no loop beyond the unwinding bound, returned frames within the documented maximum, returned buffers never written by later calls (write monitor + native compare), accounting invariant after every call - all 15 decoders (MPEG-4 audio over the SizeLength/IndexLength values the SDP layer admits) plus the PTSEqualsDTS helpers; one inductive step at the REAL size caps with length-only buffers (VP8, VP9, AV1, fragmented, KLV, MPEG-1 video), whose reads are memoised so that counterexamples replay natively; unit-COUNT cap for H264/H265: an aggregation packet with a unit count around the documented maximum on the marker path and on the timestamp-split path.',
+    "level_note": 'Outside: inductive size-cap step for H264/H265 (solver timeouts on length-only data, dropped rather than weakened); M-JPEG beyond K=2, P=14; heap measured as reachable slice lengths.',
     "runs": codec_runs("ZzC08", "Hist", state=True, quick={"*": {}, "rtpvp9": {"K": 2, "P": 5}}, thorough={"*": {"K": 3}, "rtpvp9": {"K": 2, "P": 8}},
                        extra_entries={"rtpklv": ["ZzC08KLVInd"], "rtpfragmented": ["ZzC08FragmentedInd"], "rtpvp8": ["ZzC08VP8Ind"],
                                       "rtpvp9": ["ZzC08VP9Ind"], "rtpav1": ["ZzC08AV1Ind"]})
@@ -142,7 +142,7 @@ PROPS["C08"] = {
 
 # ---------------------------------------------------------------- C09
 PROPS["C09"] = {
-    "level_text": "MIKEY: totality on every byte string <= 24 (quick) / 32 (thorough) bytes and marshal/unmarshal idempotence on the accepted set. Session and Transport headers: marshal->unmarshal identity over the header's grammar (ports 0..65535 one at a time, SSRC all 32 bits, TTL/interleaved 8 bits, all profile/protocol/delivery/mode combinations). Parsing determinism of Transport and Range under every map iteration order (engine option -mapperm). Range NPT: millisecond-resolution times round-trip exactly (exact FP for ms <= 255/2047, ideal-arithmetic for ms <= 2^30). Session totality on all strings <= 8/10 bytes.",
+    "level_text": "MIKEY: totality on every byte string <= 24 (quick) / 32 (thorough) bytes and marshal/unmarshal idempotence on the accepted set; value-level round trip of every well-formed message (0-2 crypto sessions, up to 2-3 payloads of the four kinds, KEMAC with 1-2 key-data sub-payloads with/without SPI, SP with 0-2 parameters) and purity of Marshal. Session and Transport headers: marshal->unmarshal identity over the header's grammar (ports 0..65535 one at a time, SSRC all 32 bits, TTL/interleaved 8 bits, all profile/protocol/delivery/mode combinations). Parsing determinism of Transport and Range under every map iteration order (engine option -mapperm). Range NPT: millisecond-resolution times round-trip exactly (exact FP for ms <= 255/2047, ideal-arithmetic for ms <= 2^30). Session totality on all strings <= 8/10 bytes.",
     "level_note": "Trusted: strconv.FormatFloat/ParseFloat('f',-1,64) round-trips float64 exactly (stdlib contract, stubbed as an opaque inverse pair). Outside: RTP-Info, Authenticate/Authorization digest fields, KeyMgmt text wrapper, SMPTE/UTC ranges, session timeout > 99999 (decimal conversion of wide numbers is beyond the solvers), two fully symbolic ports at once.",
     "runs": [
         R("mikey-total", "pkg/mikey", "pkg/mikey", ["ZzC09MikeyTotal"], flags={"concoff": True}, quick_params={"P": 24}, thorough_params={"P": 32}),
@@ -197,7 +197,7 @@ PROPS["C17"] = {
 }
 _EXTRAS = {"pkg/ringbuffer": "extra/ringbuffer", "internal/asyncprocessor": "extra/asyncprocessor"}
 PROPS["C18"] = {
-    "level_text": 'Start-up validation for ALL 64-bit values of WriteQueueSize and MaxPacketSize (client and server); every RTP write entry point (client, server session, server stream with fan-out) and RTCP (client, server session) with MaxPacketSize and packet sizes symbolic: refused => error and nothing queued, accepted => exactly one buffer <= MaxPacketSize, exact boundary both ways; SRTP/SRTCP sizes with and without MKI through the real size arithmetic and a length model of pion/srtp.',
+    "level_text": 'Start-up validation for ALL 64-bit values of WriteQueueSize and MaxPacketSize (client and server); every RTP write entry point (client, server session, server stream with fan-out) with MaxPacketSize and packet sizes symbolic (CSRC list, payload, padding through either pion field) and RTCP (client, server session; receiver reports with 0..n reception reports and 0/4/8 bytes of profile extensions): refused => error and nothing queued, accepted => exactly one buffer <= MaxPacketSize whose length is the real marshalled size, exact boundary both ways; SRTP/SRTCP sizes with and without MKI through the real size arithmetic and a length model of pion/srtp.',
     "level_note": 'Trusted: pion/srtp output length = input + 10 (+4 SRTCP index) + len(MKI), contents unconstrained; goroutines/timers not executed (GOSTUB). Outside: multicast writer, server stream RTCP, interleaved frame buffer sizing, what the kernel does.',
     "runs": [
         R("start-validation", ".", "root", ["ZzC18ServerStart", "ZzC18ClientStart"], params={"GOSTUB": 1}, extras=_EXTRAS),
@@ -208,8 +208,8 @@ PROPS["C18"] = {
     ],
 }
 PROPS["C01"] = {
-    "level_text": "Data-path kernel only: for an arbitrary RTP packet (all header fields, 0-2 CSRC, payload 0..P symbolic) written through the real clientFormat / serverSessionFormat / serverStreamFormat.writePacketRTP on a minimal object graph (real asyncprocessor + ring buffer, capturing sink), the bytes queued parse back (pion) to the same payload, marker, timestamp, sequence number and payload type with SSRC = the format's announced local SSRC; every active unicast reader of a stream gets the packet exactly once; refused writes reach nobody.",
-    "level_note": "Not covered (stated in DESIGN.md §6/§7): goroutine schedules, sockets, TLS/tunnels, UDP loss, readers joining/leaving, ordering across packets (delegated to C16's FIFO step), SRTP contents, the receive side (fastRTPUnmarshal, listeners). Trusted: engine semantics, pion/rtp Unmarshal as the reference reader.",
+    "level_text": "Kernels of the data path on the real objects, no sockets. WRITE side: an arbitrary RTP packet (all header fields, 0-2 CSRC, payload 0..P symbolic, padding through either pion field) written through the real clientFormat / serverSessionFormat / serverStreamFormat.writePacketRTP on a minimal object graph (real asyncprocessor + ring buffer, capturing sink): the bytes queued parse back (pion) to the same payload, marker, timestamp, sequence number and payload type with SSRC = the format's announced local SSRC; every active unicast reader of a stream gets the packet exactly once; refused writes reach nobody. RECEIVE side over UDP (client and server session): K datagrams with arbitrary sequence numbers within a quarter of the sequence space (gaps, reordering, duplicates) and symbolic payloads through the real listener loop with its receive-buffer replacement policy, payload-type demultiplexing, fastRTPUnmarshal and the real reorder buffer: every delivered packet carries the payload sent with its sequence number (also after being parked while later datagrams were read), no sequence number delivered twice. fastRTPUnmarshal agrees with pion's Packet.Unmarshal on every byte string <= P.",
+    "level_note": "Not covered (stated in DESIGN.md §6/§7): goroutine schedules, sockets, TLS/tunnels (WebSocket/HTTP carriers use gorilla and real connections), UDP loss in the kernel, readers joining/leaving, ordering across packets on the write side (delegated to C16's FIFO step), SRTP contents, interleaved-frame demultiplexing by channel. Trusted: engine semantics, pion/rtp Unmarshal as the reference reader.",
     "runs": [
         R("write-paths", ".", "root", ["ZzC18ClientWriteRTP", "ZzC18StreamWriteRTP", "ZzC18SessionWriteRTP"], params={"GOSTUB": 1}, extras=_EXTRAS,
           quick_params={"P": 12, "MAXPS": 36}, thorough_params={"P": 40, "MAXPS": 80, "NR": 3}),
@@ -227,7 +227,7 @@ PROPS["C19"] = {
     ],
 }
 PROPS["C20"] = {
-    "level_text": "Server-side URL analysis is the inverse of the documented client join: for symbolic path (1..6/10 bytes, any byte but a trailing '/'), symbolic query (0..6/10 bytes) and track 0..9, plus template paths containing trackID= look-alike segments, getPathAndQueryAndTrackID / findMediaByTrackID / getPathAndQuery return exactly path, query and track for the FFmpeg and GStreamer layouts.",
+    "level_text": "Server-side URL analysis is the inverse of the documented client join: for symbolic path (1..6/10 bytes, any byte but a trailing '/'), symbolic query (0..6/10 bytes) and track 0..9, plus template paths containing trackID= look-alike segments with and without a query, getPathAndQueryAndTrackID / findMediaByTrackID / getPathAndQuery return exactly path, query and track for the FFmpeg and GStreamer layouts. DESCRIBE/SETUP agreement: for streams of 1..3 (5) medias with any subset of back channels, requested or not, every control attribute handed out by descForDescribe resolves through findMediaByTrackID to the media its entry describes.",
     "level_note": 'Outside: net/url parsing and escaping, Media.URL / findBaseURL on the client, findMediaByURL, credentials stripping in Request.Marshal.',
     "runs": [R("split", ".", "root", ["ZzC20Split", "ZzC20SplitLookalike"], params={"GOSTUB": 1}, extras=_EXTRAS, quick_params={"PL": 6, "QL": 6}, thorough_params={"PL": 10, "QL": 10}),
              R("describe-control", ".", "root", ["ZzC20DescribeControl"], params={"GOSTUB": 1}, extras=_EXTRAS, quick_params={"N": 3}, thorough_params={"N": 5})],
@@ -254,7 +254,7 @@ PROPS["C04"] = {
 # ---------------------------------------------------------------- C10
 PROPS["C10"] = {
     "parallel": 4,
-    "level_text": "Basic and Digest (MD5, SHA-256) on the real Sender -> Authorization.Marshal -> Unmarshal -> Verify chain with the server's own WWW-Authenticate challenge: symbolic user, password (printable, including ':'), realm and nonce (1-2 bytes each); completeness (right credentials accepted) and soundness (a different password / user / realm / nonce / method, or a scheme that is not enabled, is rejected). Digest hashes are uninterpreted functions assumed collision-free (pairwise axioms over the applications on the path).",
+    "level_text": "Basic and Digest (MD5, SHA-256) on the real Sender -> Authorization.Marshal -> Unmarshal -> Verify chain with the server's own WWW-Authenticate challenge: symbolic user, password (printable, including ':'), realm and nonce (1-2 bytes each); request URLs with a path, without any path, with a query but no path, with a query and trailing slash. Completeness (right credentials accepted) and soundness (a different password / user / realm / nonce / method, ANY other (user, password) pair for Basic, or a scheme that is not enabled, is rejected); scheme admission for an arbitrary header kind against an arbitrary enabled set. Digest hashes are uninterpreted functions assumed collision-free (pairwise axioms over the applications on the path); crypto/subtle.ConstantTimeCompare by its functional contract.",
     "level_note": "Trusted: MD5/SHA-256 collision freedom (the cryptographic assumption). Outside: the URL matching relaxations (URLs are concrete here), the 401-vs-close behaviour of ServerConn, the client's single retry, field lengths above the registered bounds.",
     "runs": [
         R("basic", "pkg/auth", "pkg/auth", ["ZzC10Basic"], flags={"concoff": True}, quick_params={"UL": 2, "PL": 3}, thorough_params={"UL": 3, "PL": 4}),
@@ -298,8 +298,8 @@ PROPS["C12"] = {
              R("media-url-any", "pkg/description", "pkg/description", ["ZzC12MediaURLAny"], flags={"concoff": True}, quick_params={"CL": 2}, thorough_params={"CL": 4})],
 }
 PROPS["C02"] = {
-    "level_text": "Two sequential kernels on the real code: (1) ServerSession.handleRequestInner state guard: for every session state and every state-changing method the request is refused with ErrServerInvalidState (status >= 400, state untouched, application not called) exactly when (method, state) is outside the RFC 2326 table written in the harness; a request refused by validation or by the application leaves the state unchanged; a request from another connection than the pinned one is refused in every state. (2) ServerConn.handleRequestOuter: exactly one response is written per request for all eleven methods, with the request's CSeq echoed (symbolic value), 400 without CSeq.",
-    "level_note": "Outside: request sequences (only one step from each constructed state), successful SETUP/PLAY/RECORD transitions through the stream/UDP plumbing, routing by Session header in Server.run (channels), timers, keep-alive, exactly-once session close. Goroutines/timers are not executed (GOSTUB).",
+    "level_text": "Sequential kernels on the real code: (1) ServerSession.handleRequestInner state guard: for every session state and every state-changing method the request is refused with ErrServerInvalidState (status >= 400, state untouched, application not called) exactly when (method, state) is outside the RFC 2326 table written in the harness; a request refused by validation or by the application leaves the state unchanged; a request from another connection than the pinned one is refused in every state. (2) ServerConn.handleRequestOuter: exactly one response is written per request for all eleven methods, with the request's CSeq echoed (symbolic value), 400 without CSeq. (3) UDP liveness: every UDP entry point of a session media (RTP/RTCP while recording, RTP/RTCP while playing) refreshes the session's last-packet time for arbitrary RTP bytes / any receiver report, so a peer that keeps sending media or reports is not expired by the UDP timeout check.",
+    "level_note": "Outside: request sequences (only one step from each constructed state), successful SETUP/PLAY/RECORD transitions through the stream/UDP plumbing, routing by Session header in Server.run (channels), the timers themselves, session lifetime decisions taken in the session's channel-driven run loop (e.g. closing when the last connection goes away), keep-alive by RTSP requests, exactly-once session close. Goroutines/timers are not executed (GOSTUB).",
     "runs": [R("state-guard", ".", "root", ["ZzC02StateGuard", "ZzC02HandlerRefuses", "ZzC02OneResponse"], params={"GOSTUB": 1}, extras=_EXTRAS, flags={"concoff": True}),
              R("udp-keepalive", ".", "root", ["ZzC02UDPKeepAlive"], params={"GOSTUB": 1}, extras=_EXTRAS)],
 }
@@ -320,7 +320,7 @@ PROPS["C14"] = {
 # ---------------------------------------------------------------- C15
 _RATES = [8000, 16000, 44100, 48000, 90000]
 PROPS["C15"] = {
-    "level_text": "Pure arithmetic obligations on the real code: (1) globalDecoderTrackData.decode is the 64-bit continuation of the 32-bit RTP timestamp for K=4 (quick) / 8 (thorough) arbitrary steps |step|<2^31 from any start; (2) multiplyAndDivide(v,m,d) equals floor(v*m/d) by its 128-bit defining property for all 0<=v<2^62 whose result fits int63, for every pair of clock rates in use and 10^9; (3) GlobalDecoder.Decode places a later track at startPTS*rate/leadRate+elapsed*rate/1e9 (all instants, rates from the set); (4) ntp.Decode(ntp.Encode(t)) is within 1 ns of t for every nanosecond of NTP era 0 after 1970; (5) Receiver.packetNTPUnsafe adds exactly trunc(delta*1e9/rate) for every signed 32-bit delta with no 64-bit overflow. Multiplication/division kernels are decided by cvc5 with the bit-vector-as-integer encoding; floating point by the ideal-arithmetic over-approximation (fpreal.go).",
+    "level_text": 'Pure arithmetic obligations on the real code: (1) globalDecoderTrackData.decode is the 64-bit continuation of the 32-bit RTP timestamp for K=4 (quick) / 8 (thorough) arbitrary steps |step|<2^31 from any start; (2) multiplyAndDivide(v,m,d) equals floor(v*m/d) by its 128-bit defining property for all 0<=v<2^62 whose result fits int63, for every pair of clock rates in use and 10^9; (3) GlobalDecoder.Decode places a later track at startPTS*rate/leadRate+elapsed*rate/1e9 (all instants, rates from the set); (4) ntp.Decode(ntp.Encode(t)) is within 1 ns of t for every nanosecond of NTP era 0 after 1970; (5) Receiver.packetNTPUnsafe adds exactly trunc(delta*1e9/rate) for every signed 32-bit delta with no 64-bit overflow; (6) rtpsender: after any series of packets flagged PTS==DTS or not, the sender report pairs the RTP timestamp and the absolute time of one and the same (the last flagged) packet, with exact packet/octet counts (clock frozen, so no extrapolation term). Multiplication/division kernels are decided by cvc5 with the bit-vector-as-integer encoding; floating point by the ideal-arithmetic over-approximation (fpreal.go).',
     "level_note": "Trusted: IEEE-754 round-to-nearest error bound 2^-53 per operation for normal non-overflowing results (the float64 abstraction), contract-level model of time.Time.Add/Sub on wall-clock instants (exact within |d|<2^62, |sec difference|<2^33), cvc5 1.0.3's integer encoding. Not covered: arbitrary clock rates outside the listed set, rtpsender.Sender.report's float64->uint32 conversion (implementation-defined when out of range), NTP era roll-over in 2036.",
     "runs": [
         R("continuation", "pkg/rtptime", "pkg/rtptime", ["ZzC15Continuation"], flags={"workers": 2}, quick_params={"K": 4}, thorough_params={"K": 8}),
